@@ -80,7 +80,7 @@ Section CheckerFuel.
   Qed.
 
   Lemma pop_block_nofuel k st : nofuel (pop_block k st).
-  Proof. unfold pop_block, nofuel. destruct (map b_name _); discriminate. Qed.
+  Proof. unfold pop_block, nofuel. destruct (map vb_name _); discriminate. Qed.
 
   Lemma check_block_nofuel w n : (forall st c, In c (children ko n) -> nofuel (w st c)) -> forall st, nofuel (check_block ko w st n).
   Proof.
@@ -91,7 +91,7 @@ Section CheckerFuel.
 
   Lemma visit_key_nofuel st key : nofuel (visit_key params st key).
   Proof.
-    unfold visit_key, nofuel. destruct (bstr_eqb key s_ij); [discriminate|].
+    unfold visit_key, nofuel. destruct (bstr_eqb key k_ij); [discriminate|].
     destruct (mark_used key (tc_vars st)); [discriminate|]. destruct (mem_s key params); discriminate.
   Qed.
 
@@ -121,10 +121,10 @@ Section CheckerFuel.
     - (* NCall *)
       match goal with |- nofuel (match ?c with _ => _ end) =>
         destruct c as [e|st'] eqn:E; [intros [= ->]; apply (check_call_nofuel _ _ _ _ _ _ E) | apply (check_block_nofuel w _ Hw)] end.
-    - (* NLetValue *) destruct (bstr_eqb name s_ij); [discriminate|].
+    - (* NLetValue *) destruct (bstr_eqb name k_ij); [discriminate|].
       match goal with |- nofuel (match ?c with _ => _ end) =>
         destruct c as [e'|st'] eqn:E; [intros [= ->]; apply (check_block_nofuel w _ Hw st E) | discriminate] end.
-    - (* NLetContent *) destruct (bstr_eqb name s_ij); [discriminate|].
+    - (* NLetContent *) destruct (bstr_eqb name k_ij); [discriminate|].
       match goal with |- nofuel (match ?c with _ => _ end) =>
         destruct c as [e'|st'] eqn:E; [intros [= ->]; apply (check_block_nofuel w _ Hw st E) | discriminate] end.
     - (* NHeaderParam *) discriminate.
